@@ -375,6 +375,7 @@ class Exec:
         self.nbox = 0
         self.steps = 0
         self.solver_calls = 0
+        self.asserts = 0
         self.events = []
         self.depth = 0
         self.cur = Thread(0)       # current logical thread
@@ -436,6 +437,7 @@ class Exec:
 
     def prove(self, cond):
         """None if cond holds for every valuation on this path, else a z3 model"""
+        self.asserts += 1
         if isinstance(cond, bool):
             if cond:
                 return None
@@ -453,6 +455,36 @@ class Exec:
         if r == z3.unknown:
             raise Unsupported('solver returned unknown')
         return None
+
+    def prove_all(self, conds):
+        """conds: [(cond, ...)] tuples; one solver query for the conjunction; -> list of (index, model) failures"""
+        self.asserts += len(conds)
+        sym = []
+        bad = []
+        for i, c in enumerate(conds):
+            c0 = c[0]
+            if isinstance(c0, bool):
+                if not c0:
+                    bad.append(i)
+            else:
+                sym.append((i, c0))
+        out = []
+        if bad:
+            self.solver_calls += 1
+            if self.solver.check() == z3.sat:
+                m = self.solver.model()
+                out += [(i, m) for i in bad]
+        if sym:
+            self.solver_calls += 1
+            r = self.solver.check(z3.Not(z3.And([c for _, c in sym])))
+            if r == z3.unknown:
+                raise Unsupported('solver returned unknown')
+            if r == z3.sat:
+                for i, c in sym:
+                    self.solver_calls += 1
+                    if self.solver.check(z3.Not(c)) == z3.sat:
+                        out.append((i, self.solver.model()))
+        return sorted(out, key=lambda t: t[0])
 
     # ---- heap
     def new_box(self, v, arc=False):
@@ -918,7 +950,7 @@ class Exec:
 
 def explore(ex: Exec, harness, max_paths=10 ** 9):
     """DFS over the decision tree by re-execution.  harness(ex) -> list of findings (or None)."""
-    stats = dict(paths=0, infeasible=0, findings=[], steps=0, solver_calls=0)
+    stats = dict(paths=0, infeasible=0, findings=[], steps=0, solver_calls=0, asserts=0)
     prefix = []
     while True:
         ex.reset(prefix)
@@ -932,6 +964,7 @@ def explore(ex: Exec, harness, max_paths=10 ** 9):
         stats['paths'] += 1
         stats['steps'] += ex.steps
         stats['solver_calls'] += ex.solver_calls
+        stats['asserts'] += ex.asserts
         tr = ex.trace
         while tr:
             ch, feas = tr[-1]
